@@ -162,6 +162,13 @@ def cap_size(n, high, chunk):
     return min(n, max(600, 150 * per)) if per < 2048 else n
 
 
+def cap_cost(n, per):
+    """the model evaluates a write in time ~ size * (number of system calls + progress reports) because every report
+    carries the whole unwritten remainder: keep size^2 / (bytes per system call) below ~6e7 (tens of CPU seconds)"""
+    per = max(1, per)
+    return min(n, int((6e7 * per) ** 0.5))
+
+
 def read_lengths(rng, chunk, low, high):
     c = [0, 1, 2, rng.range(3, 300), rng.range(300, 20000), chunk - 1, chunk, chunk + 1, 2 * chunk + 3]
     for v in (low, high):
@@ -251,6 +258,8 @@ def gen_read(rng, sid, big):
             ln = rng.choice([1 << 20, (1 << 20) + 1, (1 << 20) - 1, 700001])
         if ln != SMAX:
             ln = cap_size(ln, high, s.chunk)
+            if s.interval[0]:
+                ln = min(ln, 300000)     # the search tries a timer tick at every step: keep the buffered data moderate
         if rng.chance(1, 8) and k:
             s.water(pick_water(rng, s.chunk))
         i = s.op(False, ln, hs=rng.choice([0, 0, 0, 300]))
@@ -314,8 +323,7 @@ def gen_write(rng, sid, big):
         if big and k == 0:
             sz = rng.choice([1 << 20, (1 << 20) + 1, 900001])
         sz = cap_size(sz, high, s.chunk)
-        if 0 < cap <= 8192:
-            sz = min(sz, 300000)      # a small pipe means ~4 KiB per write(): keep the number of system calls per byte sane
+        sz = cap_cost(sz, min(high, s.chunk, cap if cap > 0 else 65536))
         s.op(True, sz, hs=rng.choice([0, 0, 300]), frags=frag_sizes(rng, sz, s.chunk), woff=woff)
         woff += sz
         if rng.chance(1, 4):
@@ -367,6 +375,7 @@ def gen_file(rng, sid):
         for k in range(rng.choice([1, 2, 3])):
             sz = rng.choice([0, 1, rng.range(2, 3000), s.chunk - 1, s.chunk + 1, 2 * s.chunk + 7, rng.range(3000, 200000)])
             sz = cap_size(sz, eff_params(s.chunk, s.setters)[1], s.chunk)
+            sz = cap_cost(sz, min(eff_params(s.chunk, s.setters)[1], s.chunk))
             s.op(True, sz, hs=0, frags=frag_sizes(rng, sz, s.chunk), woff=woff)
             woff += sz
             if rng.chance(1, 4):
@@ -470,7 +479,7 @@ def gen_zero_after_close(rng, sid):
 
 def scenarios(ctx):
     rng = ctx.rng
-    n = 100 if ctx.tier == "quick" else 1200
+    n = 100 if ctx.tier == "quick" else 600
     out = [gen_ebadf(rng, 100000 + k) for k in range(6)] + [gen_heldleave(rng, 100100 + k) for k in range(3)] + \
           [gen_barrier_hang(rng, 100200 + k) for k in range(4)] + [gen_zero_after_close(rng, 100300 + k) for k in range(4)]
     for i in range(n):
